@@ -317,6 +317,7 @@ func (s *indexKVStore) getOrCreateValue(bucketID uint32, key []byte,
 	}
 
 	bucket, ok := s.bucketCache.Get(bucketID)
+	cached := ok
 	if !ok {
 		// get from kv store(persist)
 		snapshot := s.getSnapshot()
@@ -326,7 +327,20 @@ func (s *indexKVStore) getOrCreateValue(bucketID uint32, key []byte,
 			return 0, false, false, err
 		}
 		if bucket != nil {
-			s.bucketCache.Add(bucketID, bucket)
+			// only cache the bucket when it was loaded from the current snapshot: a flush may have
+			// installed a new snapshot and purged the cache since the snapshot was taken, caching the
+			// bucket then would hide the flushed keys from later lookups.
+			s.lock.RLock()
+			if snapshot == s.snapshot {
+				s.bucketCache.Add(bucketID, bucket)
+				cached = true
+			}
+			s.lock.RUnlock()
+			if !cached {
+				// read again from the current snapshot
+				bucket.Release()
+				return s.getOrCreateValue(bucketID, key, createFn)
+			}
 		}
 	}
 	if bucket != nil {
